@@ -120,7 +120,8 @@ PROPS['C02'] = dict(
     harness_alias={'fz_safety': 'c02_safety'},
     rule='cases: (text, allocator kind, history). Texts: valid, single/double-fault mutants, nesting stress up to depth 1000, '
          'wide+deep containers with a failure injected at depth 1..20, libFuzzer byte strings. Allocator kinds: pool, '
-         'SimpleAllocator (really frees), tracking allocator (ledger), pool with adaptive chunk policy. Histories: fresh; '
+         'SimpleAllocator (really frees), tracking allocator (ledger), pool with adaptive chunk policy, pool working inside a '
+         'caller-supplied buffer (64..4096 bytes at offset 0..7 of a heap block of exactly that size). Histories: fresh; '
          'valid-then-input; input twice; input-then-valid-then-serialise; input then move-assign; move-construct; swap. '
          'Oracle: ASan+LSan and a reduced UBSan set with heap fill bytes 0x0c/0x06/0x07/0xbe (an unconstructed node then looks '
          'like an owned string/object/array), tracking-allocator ledger (no foreign/double free, nothing live after '
@@ -128,7 +129,7 @@ PROPS['C02'] = dict(
          'independent of the perturbation, same outcome when parsed twice, document reusable and correct after a failure. '
          'Non-trivial: invalid with a container open or >1 byte consumed, or valid with depth >= 2.',
     min_evaluations=dict(quick=20000, thorough=500000),
-    required_classes=['alloc:pool', 'alloc:freeing', 'alloc:tracking', 'alloc:adaptive-pool', 'invalid@depth4+', 'valid',
+    required_classes=['alloc:pool', 'alloc:freeing', 'alloc:tracking', 'alloc:adaptive-pool', 'alloc:pool-in-user-buffer', 'user-buffer:misaligned', 'invalid@depth4+', 'valid',
                       'history:0', 'history:6'],
     assumptions=['MemorySanitizer is unusable here (uninstrumented libstdc++): acting on uninitialised values is detected '
                  'through its influence on behaviour under heap-fill perturbation, not as every uninitialised read'],
@@ -142,26 +143,29 @@ PROPS['C05'] = dict(
         U(c05, 'prng', 250000, 6000000, wq=4, wt=8, label='c05-prng'),
         U(B('c05_strings', 'c05_strings.cpp', 'wasan'), 'prng', 150000, 4000000, wq=3, wt=4, label='c05-sse-asan'),
         U(c05, 'rc', 4000, 100000, wq=2, wt=2, label='c05-rc'),
-        U(c05, 'prng', 768, 768 * 24, wq=2, wt=6, label='c05-exhaustive-u', args=['--exhaustive-u']),
-        U(B('c05_strings', 'c05_strings.cpp', 'wasan'), 'prng', 768, 768 * 8, wq=1, wt=2, label='c05-exhaustive-u-sse', args=['--exhaustive-u']),
-        U(c05, 'prng', 3072, 3072 * 4, wq=2, wt=4, label='c05-exhaustive-pairs', args=['--exhaustive-pairs'], cap_s=dict(quick=120, thorough=900)),
+        U(c05, 'prng', 1024, 1024 * 24, wq=2, wt=6, label='c05-exhaustive-u', args=['--exhaustive-u']),
+        U(B('c05_strings', 'c05_strings.cpp', 'wasan'), 'prng', 1024, 1024 * 8, wq=1, wt=2, label='c05-exhaustive-u-sse', args=['--exhaustive-u']),
+        U(B('c05_strings', 'c05_strings.cpp', 'dynasan'), 'prng', 100000, 3000000, wq=2, wt=3, label='c05-dynamic-asan'),
+        U(B('c05_strings', 'c05_strings.cpp', 'dynasan'), 'prng', 1024, 1024 * 8, wq=1, wt=2, label='c05-exhaustive-u-dynamic', args=['--exhaustive-u']),
+        U(c05, 'prng', 4096, 4096 * 4, wq=2, wt=4, label='c05-exhaustive-pairs', args=['--exhaustive-pairs'], cap_s=dict(quick=120, thorough=900)),
         F(fz05, 15, 600, wq=2, wt=2, label='fz_string', field='body', dict='fuzz/string.dict', max_len=300),
     ],
     harness_alias={'fz_string': 'c05_strings'},
     exhaustive=dict(quick=False, thorough=False),
     rule='cases: literal = filler(0..69 bytes) + feature + filler, so the feature sits at every offset of the 16/32-byte grid; '
          'features: the 8 short escapes, \\uXXXX (all 65536 values enumerated completely by the exhaustive-u unit in each of '
-         '3 contexts, every run), all 1024 x 1024 high+low surrogate pairs (exhaustive-pairs unit, each of 3 contexts, every run) and '
+         '4 contexts, every run), all 1024 x 1024 high+low surrogate pairs (exhaustive-pairs unit, each of 4 contexts, every run) and '
          '~100 non-low second escapes per high surrogate, surrogate-region singles and ordered pairs, every raw byte, every byte after a backslash, '
          'malformed \\u, unpaired/misordered surrogates, runs of consecutive escapes; fillers plain ASCII, ASCII mixed with '
          'bytes >= 0x80, or any unescaped-legal byte; one case in three has a valid escape before the feature (post-escape '
          'decoder path); AVX2 and SSE (-march=westmere) sanitizer builds; contexts: root value, array element, '
-         'object key+value, on-demand key, UpdateLazy key; plus libFuzzer over literal bodies. Oracle: refjson.unescape '
+         'object key+value, on-demand key, UpdateLazy key, and the decoding kernel called directly on a padded buffer (in the '
+         'runtime-dispatch build: the dispatcher, the SSE clone and the AVX2 clone); plus libFuzzer over literal bodies. Oracle: refjson.unescape '
          '(accept/reject, decoded bytes, error class when the literal holds one fault kind). Non-trivial: invalid literal, '
          'or >= 16 bytes with an escape, or a control/high byte.',
     min_evaluations=dict(quick=200000, thorough=3000000),
     required_classes=['feature:short-escape', 'feature:u-pair', 'feature:high-surrogate-unpaired', 'feature:low-surrogate-first',
-                      'feature:raw-control', 'feature:escape-run', 'ctx:key', 'ctx:ondemand-key', 'ctx:updatelazy-key',
+                      'feature:raw-control', 'feature:escape-run', 'ctx:key', 'ctx:ondemand-key', 'ctx:updatelazy-key', 'ctx:kernel',
                       'escape-before-feature+high-bytes'],
 )
 
@@ -210,10 +214,12 @@ PROPS['C07'] = dict(
          'fraction or exponent; length <= 32 and no write outside a 33-byte block (ASan heap block / canary); no decimal with '
          'one digit fewer reads back (nearest candidate and both neighbours, via glibc %.*e); out is the closest candidate of '
          'its length that reads back (exact expansion consulted for ties and irregular intervals); Document::Parse(out) gives '
-         'the same bits. Non-trivial: not an integer below 2^53.',
+         'the same bits; for a sample (a quarter of the 24/25-byte spellings, 1/64 of the rest) the double is serialised at the end of '
+         'a document with every amount of space 18..48 bytes left in a 96-byte write buffer (ASan: first byte beyond the block). '
+         'Non-trivial: not an integer below 2^53.',
     min_evaluations=dict(quick=500000, thorough=10000000),
     required_classes=['class:exp-rotation:boundary-sig', 'class:subnormal', 'class:integer-valued', 'class:float-value',
-                      'class:format-switch'],
+                      'class:format-switch', 'spelling>=24-bytes', 'write-buffer-edge-sweep'],
     assumptions=['an error confined to the low word of one 128-bit table entry is outside practical reach (DESIGN.md section 8)'],
 )
 
@@ -224,8 +230,8 @@ PROPS['C08'] = dict(
     units=[
         U(c08, 'prng', 382, 382, wq=4, wt=4, label='c08-kernels-asan', args=['--kernels'], sharded=True, cap_s=dict(quick=150, thorough=900)),
         U(c08p, 'prng', 382, 382, wq=4, wt=4, label='c08-kernels-prod', args=['--kernels'], sharded=True, cap_s=dict(quick=150, thorough=900)),
-        U(c08, 'prng', 400000, 20000000, wq=2, wt=4, label='c08-compose-asan'),
-        U(c08p, 'prng', 1500000, 100000000, wq=2, wt=4, label='c08-compose-prod'),
+        U(c08, 'prng', 300000, 20000000, wq=2, wt=4, label='c08-compose-asan'),
+        U(c08p, 'prng', 1000000, 100000000, wq=2, wt=4, label='c08-compose-prod'),
         U(c08, 'rc', 5000, 100000, wq=1, wt=2, label='c08-rc'),
     ],
     rule='(a) complete enumeration of the two 8-digit kernels: Utoa_8(v) and Utoa_1_8(v) for ALL v < 10^8 (1526 blocks of 65536 '
@@ -234,12 +240,13 @@ PROPS['C08'] = dict(
          '2^k+1, UINT64_MAX, INT64_MIN/MAX, every digit count 1..20, 8-digit groups equal to 0/1/99999999, random values, as '
          'signed and unsigned, directly and through Serialize+Parse; (c) 1 case in 24: documents holding 1..300 integers (flat '
          'array, arrays nested 1..6 deep, object values, [int,"text"] pairs; full-width / small / mixed magnitudes) serialised '
-         'into write buffers of capacity 0..1024, fresh or reused, so that buffer growth steps land on integers. Oracle: snprintf; length and 33-byte write bound (ASan '
+         'into write buffers of capacity 0..1024, fresh or reused, so that buffer growth steps land on integers; a tenth of these also with four threads serialising '
+         'documents of their own at the same time. Oracle: snprintf; length and 33-byte write bound (ASan '
          'heap block / canary); parse-back keeps kind and value. Non-trivial: >= 9 digits or negative. evaluations counts the '
          'kernel evaluations as oracle sub-evaluations.',
     min_evaluations=dict(quick=50000000, thorough=200000000),
     required_classes=['kernel-block', 'class:pow10-boundary', 'class:pow2-boundary', 'class:digit-count', 'class:group-pattern',
-                      'signed', 'unsigned', 'class:container', 'container:outgrows-initial-buffer'],
+                      'signed', 'unsigned', 'class:container', 'container:outgrows-initial-buffer', 'write-buffer-edge-sweep'],
 )
 
 c09 = B('c09_quote', 'c09_quote.cpp', 'asan')
@@ -252,6 +259,8 @@ PROPS['C09'] = dict(
         U(c09, 'prng', 250000, 10000000, wq=3, wt=4, label='c09-asan'),
         U(c09w, 'prng', 400000, 10000000, wq=2, wt=2, label='c09-westmere'),
         U(B('c09_quote', 'c09_quote.cpp', 'wasan'), 'prng', 200000, 6000000, wq=2, wt=3, label='c09-sse-asan'),
+        U(B('c09_quote', 'c09_quote.cpp', 'dyn'), 'prng', 300000, 8000000, wq=2, wt=2, label='c09-dynamic'),
+        U(B('c09_quote', 'c09_quote.cpp', 'dynasan'), 'prng', 150000, 4000000, wq=2, wt=2, label='c09-dynamic-asan'),
         U(c09, 'rc', 4000, 100000, wq=1, wt=2, label='c09-rc'),
     ],
     rule='cases: byte strings of length 0..200 (+500, 1000), every length around the 16/32-byte block sizes; contents: one '
@@ -260,7 +269,8 @@ PROPS['C09'] = dict(
          'last byte before a PROT_NONE page, inside a page with 1..4095 bytes after it, starting right after a PROT_NONE page; '
          'destination: exactly 6*len+32+3 bytes ending at a PROT_NONE page; production (g++ -O2, haswell and westmere) and '
          'sanitizer builds. Oracle: scalar matcher from the statement (verbatim bytes, escapes decode to the byte, quotes '
-         'around), emitted length <= 6*len+2, no fault, output unchanged when the bytes after the string are replaced by '
+         'around), emitted length <= 6*len+2, no fault (in the runtime-dispatch builds the SSE clone and the AVX2 clone are also '
+         'called directly, since the resolver would only ever pick one of them on this host), output unchanged when the bytes after the string are replaced by '
          'quotes/backslashes/control bytes, Serialize of a string node gives the same bytes. Non-trivial: >= 1 escaped byte, '
          'or len%32 != 0 with the source within 64 bytes of a page end.',
     min_evaluations=dict(quick=500000, thorough=10000000),
@@ -366,16 +376,18 @@ PROPS['C06'] = dict(
     harness_alias={'fz_roundtrip': 'c06_serialize'},
     rule='cases: (document, write-buffer state). Documents: generated values (1..150 nodes, depth <= 8, empty containers anywhere, '
          'single scalar roots, duplicate keys, strings of arbitrary bytes incl. NUL/0x7f/>=0x80, boundary integers, every double '
-         'class) built by parsing a rendered text or through the mutation API (copied or borrowed strings), pool and freeing '
+         'class) built by parsing a rendered text or through the mutation API (copied or borrowed strings; borrowed strings and '
+         'keys also packed against the end of a mapped page followed by a PROT_NONE page), pool and freeing '
          'allocators; 1/12 of the cases plant +-inf or a NaN (with payload) at a random node. Write buffers: fresh, capacity '
          '0/1/2/7/8/63/64/255/256/4096, reused after a smaller/larger document, moved-from-and-reassigned. Oracle: Serialize == '
          'kErrorNone; refjson accepts the output and parses it to the generating value (kinds, bits, order, duplicates); '
          'Dump()==output, Size()==strlen, NUL terminator; library parse-back equals (walk and ==); re-serialisation and a second '
          'serialisation into the same buffer are byte-identical; last child sub-node Dump() correct; non-finite => '
-         'kSerErrorInfinity and Dump()=="". Non-trivial: depth >= 2, or an escape in the output, or long output, or a non-fresh buffer.',
+         'kSerErrorInfinity and Dump()==""; 1 case in 24: one scalar at the end of a document with every amount of space 1..94 '
+         'left in a 96-byte write buffer. Non-trivial: depth >= 2, or an escape in the output, or long output, or a non-fresh buffer.',
     min_evaluations=dict(quick=50000, thorough=1500000),
     required_classes=['built:parse', 'built:mutation-api', 'alloc:freeing', 'alloc:pool', 'non-finite', 'wb:reused', 'wb:capacity/0',
-                      'wb:capacity/1', 'wb:moved/0'],
+                      'wb:capacity/1', 'wb:moved/0', 'strings:borrowed-at-page-end', 'write-buffer-edge-sweep'],
 )
 
 c12 = B('c12_mutation', 'c12_mutation.cpp', 'asan')
@@ -389,7 +401,8 @@ PROPS['C12'] = dict(
     ],
     rule='cases: operation sequences (1..210 steps, generated and shrunk as one value) over 3 documents, pool or freeing '
          'allocator: Set null/bool/int64/uint64/double/string(copied|constant)/array/object on any node, AddMember (copyKey '
-         'on/off, duplicate keys only while no map may exist, bursts across the 16->24->36 capacity steps), RemoveMember '
+         'on/off, keys from a pool that includes near-collision families - equal length 13..97, one differing byte inside / between '
+         'the comparison kernels\' vector blocks -, duplicate keys only while no map may exist, bursts across the 16->24->36 capacity steps), RemoveMember '
          '(first/last/random/absent), EraseMember (empty/single/prefix/suffix/full), MemberReserve, CreateMap, DestroyMap, '
          'PushBack (bursts), PopBack, Erase (iterator / iterator range / index range), Reserve, Clear, child assignment, '
          'CopyFrom (same/other document, copyString on/off, disjoint source), move-assign (from a disjoint node, from an own '
@@ -459,6 +472,7 @@ PROPS['C20'] = dict(
         U(c20, 'rc', 3000, 80000, wq=3, wt=4, label='c20-rc'),
         U(c20, 'prng', 60000, 3000000, wq=6, wt=10, label='c20-prng'),
         U(B('c20_lazy', 'c20_lazy.cpp', 'wasan'), 'prng', 25000, 1200000, wq=2, wt=3, label='c20-sse-asan'),
+        U(B('c20_lazy', 'c20_lazy.cpp', 'prod'), 'prng', 60000, 3000000, wq=3, wt=4, label='c20-prod'),
         F(fz20, 15, 600, wq=2, wt=2, label='fz_lazy', field='raw', dict='fuzz/json.dict', seeds='fuzz/seeds/lazy'),
     ],
     harness_alias={'fz_lazy': 'c20_lazy'},
@@ -488,16 +502,17 @@ PROPS['C18'] = dict(
     rule='cases: a duplicate-free value v, a partner w that is v or v with exactly one change (leaf value / bit, 1 vs 1.0, sign, '
          '0.0 vs -0.0, number vs its digits as a string, string longer/shorter/one byte, null/false/true, [] vs {}, array '
          'element added/removed/two different elements swapped, member dropped/added, key renamed to same length/longer/prefix), '
-         'two (three) construction histories out of 10: parse compact, parse with heavy whitespace, mutation-API build, build '
+         'two (three) construction histories out of 11: parse compact, parse with heavy whitespace, mutation-API build, build '
          'with members permuted at every level, CopyFrom (source destroyed), parse of Dump, nodes that previously held another '
-         'kind, extra capacity (Reserve + add/remove), lookup maps on every object, borrowed constant strings; pool and freeing '
+         'kind, extra capacity (Reserve + add/remove), lookup maps on every object, lookup maps created before the members are added (keys passed through a scratch buffer '
+         'that is overwritten afterwards), borrowed constant strings; pool and freeing '
          'allocators incl. cross-type comparison; sanitizer build and production build (g++ -O2: the in-page fast paths of the key '
          'comparison are live only there). Oracle: (a==b) == model equality (objects as maps, numbers by kind and bits); '
          'b==a agrees; != is the negation; a==a; deep copy and parse of the serialised text are equal; transitivity on an '
          'equal-by-construction triple. Non-trivial: a container with >= 2 children.',
     min_evaluations=dict(quick=100000, thorough=2000000),
     required_classes=['equal-pair', 'unequal-pair', 'alloc:cross-type', 'hist:build-permuted', 'hist:with-map', 'hist:prior-kind',
-                      'hist:const-strings', 'hist:extra-capacity', 'hist:copy'],
+                      'hist:const-strings', 'hist:extra-capacity', 'hist:copy', 'hist:map-first'],
 )
 
 c16 = B('c16_pool', 'c16_pool.cpp', 'asan')
@@ -542,7 +557,7 @@ PROPS['C17'] = dict(
     ],
     rule='cases: thread scripts for 2..8 threads, generated on the main thread and then executed 4x behind a start barrier under '
          'ThreadSanitizer. (A) every thread owns its documents: Parse of valid and mutated texts (pool and freeing allocator), '
-         'Serialize, CreateMap, lookups incl. a missing key, GetOnDemand, UpdateLazy, mutation-API build, RemoveMember, PopBack, '
+         'Serialize, CreateMap, lookups incl. a missing key (also writing through the null node the non-const operator[] returns), GetOnDemand, UpdateLazy, mutation-API build, RemoveMember, PopBack, '
          'CopyFrom, ==; half of the cases give several threads the identical script. (B) one document built before the threads '
          'start (with or without lookup maps, pool or freeing allocator) and then only const operations from all threads: type '
          'tests, getters, iteration, FindMember (view and pointer+length), HasMember, operator[] with existing and MISSING keys, '
